@@ -334,8 +334,15 @@ def invert (f : Bmp) : Out Bmp :=
 
 /-! ## factories (`BitmapFile::CreateIndexed`) -/
 
-/-- `CreateIndexed(bitCount, width, height)`; `w` is the `uint32_t` argument -/
-def create1 (bits w : Nat) (h : Int) : Out Bmp :=
+/-- what `CreateIndexed(bitCount, width, height)` allocates: headers, palette entries, pixel bytes -/
+structure Shape where
+  bh : BmpHeader
+  ih : ImageHeader
+  npal : Nat
+  npix : Nat
+
+/-- `CreateIndexed(bitCount, width, height)` up to the contents of the two vectors; `w` is the `uint32_t` argument -/
+def createShape (bits w : Nat) (h : Int) : Out Shape :=
   match ImageHeader.create (Op2.i32 w) h bits with
   | .error e => .err e
   | .ok ih =>
@@ -350,7 +357,14 @@ def create1 (bits w : Nat) (h : Int) : Out Bmp :=
           let off := sizeBmpHeader + sizeImageHeader + 2 ^ bits * 4
           let size := off + n
           if size > W32 - 1 then .err .refused
-          else .ok { bh := BmpHeader.create size off, ih := ih, palette := List.replicate (2 ^ bits) Color.black, pixels := zeros n }
+          else .ok { bh := BmpHeader.create size off, ih := ih, npal := 2 ^ bits, npix := n }
+
+/-- `CreateIndexed(bitCount, width, height)`: black palette, zero pixels -/
+def create1 (bits w : Nat) (h : Int) : Out Bmp :=
+  match createShape bits w h with
+  | .ok s => .ok { bh := s.bh, ih := s.ih, palette := List.replicate s.npal Color.black, pixels := zeros s.npix }
+  | .err e => .err e
+  | .fault g => .fault g
 
 /-- `CreateIndexed(bitCount, width, height, palette)` -/
 def create2 (bits w : Nat) (h : Int) (pal : List Color) : Out Bmp :=
